@@ -50,6 +50,7 @@ inductive Err where
   | invalidActionEvent   -- ColangSyntaxError("Invalid action event …")
   | flowEventNotAvailable -- AssertionError("Event '…' not available!")
   | attributeError       -- AttributeError (`getattr(self, "paused_event")`)
+  | changeWithoutArguments -- KeyError('arguments')
   deriving DecidableEq, Repr, Inhabited
 
 def Err.cls : Err → String
@@ -58,6 +59,7 @@ def Err.cls : Err → String
   | .invalidActionEvent => "ColangSyntaxError"
   | .flowEventNotAvailable => "AssertionError"
   | .attributeError => "AttributeError"
+  | .changeWithoutArguments => "KeyError"
 
 /-- the reference spec of a match element: `$var.m1.m2…mk(…)`; `members = none` for a bare `$var` -/
 structure RefSpec where
@@ -85,7 +87,7 @@ def actionEventName (a : String) (m : String) : Except Err String :=
   | "Started" => .ok (a ++ "Started")
   | "Finished" => .ok (a ++ "Finished")
   | "Start" => .ok ("Start" ++ a)
-  | "Change" => .ok ("Change" ++ a)
+  | "Change" => .error .changeWithoutArguments   -- `change_event({})` reads `args["arguments"]`: the NAME function passes `{}`
   | "Stop" => .ok ("Stop" ++ a)
   | _ => .error .invalidActionEvent
 
